@@ -32,6 +32,7 @@ enum Fam {
     Deadline(u64),
     IndexBound(u8),
     ValueAbove(u128),
+    ValueBelow(u128),
     AddDataFirstByte(u8),
     ParentHeightIs(u64),
     ParentIndexIs(u8),
@@ -52,6 +53,7 @@ fn fam_name(f: &Fam) -> &'static str {
         Fam::Deadline(_) => "deadline",
         Fam::IndexBound(_) => "index-bound",
         Fam::ValueAbove(_) => "value-bound",
+        Fam::ValueBelow(_) => "value-cap",
         Fam::AddDataFirstByte(_) => "additional-data-bound",
         Fam::ParentHeightIs(_) => "parent-height-bound",
         Fam::ParentIndexIs(_) => "parent-index-bound",
@@ -84,6 +86,8 @@ fn cov_of(f: &Fam, keys: &[Key]) -> Vec<u8> {
         Fam::IndexBound(k) => refvm::encode(&[Op::LoadImm(9), pushi(*k as u128), Op::Eql]).unwrap(),
         // value > v : Gt pops x (top) = value, y = v
         Fam::ValueAbove(v) => refvm::encode(&[pushi(*v), Op::LoadImm(5), Op::Gt]).unwrap(),
+        // value < k : Lt pops x (top) = value, y = k
+        Fam::ValueBelow(k) => refvm::encode(&[pushi(*k), Op::LoadImm(5), Op::Lt]).unwrap(),
         Fam::AddDataFirstByte(b) => refvm::encode(&[pushi(0), Op::LoadImm(7), Op::BRef, pushi(*b as u128), Op::Eql]).unwrap(),
         Fam::ParentHeightIs(h) => refvm::encode(&[Op::LoadImm(8), pushi(*h as u128), Op::Eql]).unwrap(),
         Fam::ParentIndexIs(i) => refvm::encode(&[Op::LoadImm(3), pushi(*i as u128), Op::Eql]).unwrap(),
@@ -183,7 +187,13 @@ pub fn run(p: &Params) -> Report {
                         }
                     }
                     5 | 6 => Fam::IndexBound(r.below(n_in as u64 + 1) as u8),
-                    7 => Fam::ValueAbove(1000 + r.below(1000) as u128),
+                    // bounds on the coin's value, small and beyond 64 bits (values go up to 2^120)
+                    7 => match r.below(4) {
+                        0 => Fam::ValueAbove(1000 + r.below(1000) as u128),
+                        1 => Fam::ValueBelow(1000 + r.below(2000) as u128),
+                        2 => Fam::ValueBelow((1u128 << 64) + r.below(3000) as u128),
+                        _ => Fam::ValueAbove((1u128 << 64) + r.below(3000) as u128),
+                    },
                     8 => Fam::AddDataFirstByte(r.below(3) as u8),
                     9 => Fam::ParentHeightIs(height - 1 - r.below(2)),
                     10 => Fam::ParentIndexIs(r.below(3) as u8),
@@ -200,13 +210,17 @@ pub fn run(p: &Params) -> Report {
             };
             let cov = cov_of(&fam, &keys);
             let denom = if i == 0 || r.chance(2, 3) { Denom::Mel } else { Denom::Sym };
-            let value = match r.below(if i == 0 { 3 } else { 4 }) {
+            let value = match r.below(6) {
                 0 => 500 + r.below(1000) as u128,
                 1 => 1500 + r.below(1000) as u128,
                 2 => 1 << 40,
+                // values that need more than 64 bits (the covenant sees them as 256-bit integers)
+                3 => (1u128 << 64) + r.below(4000) as u128,
+                4 => (1u128 << (65 + r.below(50))) + r.below(4000) as u128,
                 // an empty coin still needs its covenant's consent
-                _ => 0,
-            } + if i == 0 { 1 << 50 } else { 0 };
+                _ if i > 0 => 0,
+                _ => 700 + r.below(1000) as u128,
+            } + if i == 0 && r.chance(1, 2) { 1 << 50 } else { 0 };
             let ad = match r.below(4) {
                 0 => vec![],
                 n => vec![(n - 1) as u8, 7],
